@@ -86,3 +86,8 @@ pub proof fn l16_wrong_orders_are_refuted()
     assert(inv(s, elig));
     assert(!inv(s2, elig));
 }
+
+// <[IndexBlob]>::first (definition)
+pub fn vfirst_blob(v: &Vec<IndexBlob>) -> (r: Option<&IndexBlob>)
+    ensures v@.len() == 0 ==> r is None, v@.len() > 0 ==> r == Some(&v@[0]),
+{ if v.len() == 0 { None } else { Some(&v[0]) } }
